@@ -87,7 +87,7 @@ def expected_dtype(k, dts):
     return F32 if all(dts[d] == F32 for d in KERNELS[k]['data']) else F64
 
 
-def run_kernel(chk, pid, kname, dts, clauses, tol=None, unit_overrides=None, tag=None):
+def run_kernel(chk, pid, kname, dts, clauses, tol=None, unit_overrides=None, tag=None, dims_map=None):
     """Generate the obligations of one kernel for one dtype assignment."""
     mod = kit.load(MOD)
     fn = getattr(mod, kname)
@@ -97,7 +97,7 @@ def run_kernel(chk, pid, kname, dts, clauses, tol=None, unit_overrides=None, tag
     pre = f'{MOD}:{kname}'
 
     def mk():
-        return {a: arg(a, d, dtype=dts[a], unit=(unit_overrides or {}).get(a)) for a, d in spec['args'].items()}
+        return {a: arg(a, d, dtype=dts[a], unit=(unit_overrides or {}).get(a), dims=(dims_map or {}).get(a, ())) for a, d in spec['args'].items()}
 
     holder = {}
 
